@@ -335,6 +335,7 @@ func (c *conc) querier(rng *lib.Rng, wg *sync.WaitGroup, done <-chan struct{}) {
 		if atomic.LoadInt32(&c.stopQ) != 0 {
 			return
 		}
+		time.Sleep(300 * time.Microsecond)
 		var err error
 		switch rng.Intn(8) {
 		case 0, 1, 2:
